@@ -13,6 +13,7 @@ import Depccg.Props.C04
 import Depccg.Props.OutputWF
 import Depccg.Props.Closure
 import Depccg.Props.LazySearch
+import Depccg.Props.C07Html
 
 namespace Depccg.CliProps
 open Depccg Str Search SearchProps GlueTree GlueRun Lazy Print Cli LazyProps GlueRunProps TextProps
@@ -285,6 +286,154 @@ theorem mt_sentenceL_ok {G : GlueRun.CatGrammar} {rootIds : List Nat} {cfg : Cfg
     · exact mt_sentenceL_go_ok h
   · exact mt_sentenceL_go_ok h
 
+/-! ### no sentence comes back with an empty list of trees -/
+
+/-- the finaliser makes one tree per goal item -/
+theorem mt_treesOf_length (gst : GSt) (tokens : List Token) :
+    ∀ (rs : List Item) (ts : List (Tree × Int)), treesOf gst tokens rs = .ok ts → ts.length = rs.length := by
+  intro rs
+  induction rs with
+  | nil =>
+    intro ts h
+    simp only [treesOf] at h
+    cases h
+    rfl
+  | cons r rs ih =>
+    intro ts h
+    simp only [treesOf] at h
+    split at h
+    · cases h
+    · split at h
+      · cases h
+      · rename_i ts' hts'
+        cases h
+        simp only [List.length_cons, ih ts' hts']
+
+theorem mt_sentenceL_go_nonempty {pick : Pick} {G : GlueRun.CatGrammar} {rootIds : List Nat} {cfg : Cfg}
+    {gst : GSt} {x : SentIn} {r : SentResult}
+    (h : (sentenceL.go pick G rootIds cfg gst x).1 = .ok r) : r ≠ .parsed [] := by
+  simp only [sentenceL.go] at h
+  split at h
+  · cases h
+    intro e
+    cases e
+  · rename_i hne
+    split at h
+    · cases h
+    · rename_i ts hts
+      cases h
+      intro e
+      simp only [SentResult.parsed.injEq] at e
+      subst e
+      have hl := mt_treesOf_length _ _ _ _ hts
+      apply hne
+      rw [List.isEmpty_iff]
+      exact List.eq_nil_of_length_eq_zero hl.symm
+
+/-- whatever the grammar, the history and the sentence: a result of `sentenceL` is the placeholder
+    or a non-empty list of trees (`run` never appends an empty list) -/
+theorem mt_sentenceL_nonempty {pick : Pick} {G : GlueRun.CatGrammar} {rootIds : List Nat} {cfg : Cfg}
+    {maxLength : Option Nat} {gst : GSt} {x : SentIn} {r : SentResult}
+    (h : (sentenceL pick G rootIds cfg maxLength gst x).1 = .ok r) : r ≠ .parsed [] := by
+  simp only [sentenceL] at h
+  split at h
+  · split at h
+    · cases h
+      intro e
+      cases e
+    · exact mt_sentenceL_go_nonempty h
+  · exact mt_sentenceL_go_nonempty h
+
+theorem mt_scoredK_ne {r : SentResult} (h : r ≠ .parsed []) : scoredK r ≠ [] := by
+  cases r with
+  | failed => simp [scoredK]
+  | parsed ts =>
+    cases ts with
+    | nil => exact absurd rfl h
+    | cons p ps => simp [scoredK]
+
+/-- the trees `json` and `html` see are the trees the record formats see -/
+theorem mt_mem_scoredK {r : SentResult} {p : Tree × Option Int} (h : p ∈ scoredK r) :
+    ∃ ts ∈ scored r, ts.1 = p.1 := by
+  cases r with
+  | failed =>
+    simp only [scoredK, List.mem_singleton] at h
+    subst h
+    exact ⟨_, List.mem_singleton.2 rfl, rfl⟩
+  | parsed trees =>
+    simp only [scoredK, List.mem_map] at h
+    obtain ⟨q, hq, rfl⟩ := h
+    exact ⟨_, List.mem_map.2 ⟨q, hq, rfl⟩, rfl⟩
+
+/-! ### the html format -/
+
+theorem mt_tokens_of_allToks {p : Token → Prop} : ∀ (t : Tree), AllToks p t → ∀ tok ∈ t.tokens, p tok
+  | .leaf _ _ _ _, h, tok, hm => by
+    simp only [Tree.tokens, List.mem_singleton] at hm
+    rw [hm]
+    exact h
+  | .un _ _ _ ch, h, tok, hm => mt_tokens_of_allToks ch h tok hm
+  | .bin _ _ _ _ l r, h, tok, hm => by
+    rcases List.mem_append.1 hm with hm | hm
+    · exact mt_tokens_of_allToks l h.1 tok hm
+    · exact mt_tokens_of_allToks r h.2 tok hm
+
+theorem mt_words_total : ∀ (toks : List Token), (∀ tok ∈ toks, C19.HasWord tok) →
+    ∃ ws, Tree.words toks = .ok ws
+  | [], _ => ⟨_, rfl⟩
+  | t :: ts, h => by
+    obtain ⟨w, hw⟩ := C19.get_of_hasWord (h t List.mem_cons_self)
+    obtain ⟨ws, hws⟩ := mt_words_total ts fun z hz => h z (List.mem_cons_of_mem _ hz)
+    simp only [Tree.words, hw, hws]
+    exact ⟨_, rfl⟩
+
+/-- `tree.word` (the sentence line of the html page) -/
+theorem mt_word_total (t : Tree) (h : AllToks C19.HasWord t) : ∃ s, Tree.word t = .ok s := by
+  obtain ⟨ws, hws⟩ := mt_words_total _ (mt_tokens_of_allToks t h)
+  simp only [Tree.word, hws]
+  exact ⟨_, rfl⟩
+
+/-- C07 `html_total` in the terms of this file -/
+theorem mt_mathmlSubtree_total (t : Tree) (h : AllToks C19.HasWord t) : ∃ s, mathmlSubtree t = .ok s :=
+  C07.html_total t fun tok ht => by
+    obtain ⟨w, hw⟩ := mt_tokens_of_allToks t h tok ht
+    rw [hw]
+    rfl
+
+theorem mt_mathmlSentence_total (p : Nat × List (Tree × Option Str)) (hne : p.2 ≠ [])
+    (hw : ∀ q ∈ p.2, AllToks C19.HasWord q.1) : ∃ s, mathmlSentence p = .ok s := by
+  obtain ⟨i, l⟩ := p
+  cases l with
+  | nil => exact absurd rfl hne
+  | cons q qs =>
+    obtain ⟨t0, pr⟩ := q
+    obtain ⟨ws, hws⟩ := mt_word_total t0 (hw _ List.mem_cons_self)
+    obtain ⟨body, hb⟩ := C19.catExcept_total mathmlEntry ((t0, pr) :: qs) (by
+      intro q hq
+      obtain ⟨s, hs⟩ := mt_mathmlSubtree_total q.1 (hw q hq)
+      simp only [mathmlEntry, hs]
+      exact ⟨_, rfl⟩)
+    simp only [mathmlSentence, hws, hb]
+    exact ⟨_, rfl⟩
+
+theorem mt_mem_numberFrom {α : Type} : ∀ (i : Nat) (xs : List α) (p : Nat × α), p ∈ numberFrom i xs → p.2 ∈ xs
+  | _, [], p, h => by simp [numberFrom] at h
+  | i, x :: xs, p, h => by
+    simp only [numberFrom, List.mem_cons] at h
+    rcases h with rfl | h
+    · exact List.mem_cons_self
+    · exact List.mem_cons_of_mem _ (mt_mem_numberFrom (i + 1) xs p h)
+
+/-- `to_mathml` is total on a batch without empty sentences whose tokens all have a word -/
+theorem mt_toMathml_total (batch : List (List (Tree × Option Str)))
+    (h : ∀ l ∈ batch, l ≠ [] ∧ ∀ q ∈ l, AllToks C19.HasWord q.1) : ∃ s, toMathml batch = .ok s := by
+  obtain ⟨body, hb⟩ := C19.catExcept_total mathmlSentence (numberFrom 1 batch) (by
+    intro p hp
+    obtain ⟨h1, h2⟩ := h p.2 (mt_mem_numberFrom _ _ p hp)
+    exact mt_mathmlSentence_total p h1 h2)
+  simp only [toMathml, hb]
+  exact ⟨_, rfl⟩
+
 /-! ### `printText` on results that render -/
 
 theorem mt_fmt_total (f : Fmt) (t : Tree) (h : AllToks C19.HasWord t) : ∃ s, f.fn t = .ok s := by
@@ -296,6 +445,7 @@ theorem mt_fmt_total (f : Fmt) (t : Tree) (h : AllToks C19.HasWord t) : ∃ s, f
   · exact h4
   · exact h6
   · exact h5
+  · exact ⟨_, rfl⟩
   · exact ⟨_, rfl⟩
   · exact ⟨_, rfl⟩
   · exact ⟨_, rfl⟩
@@ -313,8 +463,9 @@ theorem mt_mem_treesOnly {results : List SentResult} {trees : List Tree} (h : tr
   exact ⟨r, hr, ts, hts, rfl⟩
 
 /-- `print_` is total on results whose trees have words and, for the two Prolog formats, labels
-    the printer knows -/
+    the printer knows; no result is an empty list of trees (`to_mathml` indexes `trees[0]`) -/
 theorem mt_printText_total (f : Fmt) (results : List SentResult)
+    (hne : ∀ r ∈ results, r ≠ .parsed [])
     (hw : ∀ r ∈ results, ∀ ts ∈ scored r, AllToks C19.HasWord ts.1)
     (hen : f = Fmt.prologEn → ∀ r ∈ results, ∀ ts ∈ scored r, C19.EnPrologOK ts.1)
     (hja : f = Fmt.prologJa → ∀ r ∈ results, ∀ ts ∈ scored r, C19.JaPrologOK ts.1) :
@@ -345,6 +496,19 @@ theorem mt_printText_total (f : Fmt) (results : List SentResult)
     obtain ⟨r, hr, ts, hts, rfl⟩ := mt_mem_treesOnly htrees ht
     exact ⟨hw r hr ts hts, hja rfl r hr ts hts⟩
   case json => exact ⟨_, rfl⟩
+  case html =>
+    simp only [printText]
+    apply mt_addNewline_ok
+    apply mt_toMathml_total
+    intro l hl
+    obtain ⟨r, hr, rfl⟩ := List.mem_map.1 hl
+    refine ⟨fun e => mt_scoredK_ne (hne r hr) (List.map_eq_nil_iff.1 e), ?_⟩
+    intro q hq
+    obtain ⟨p, hp, rfl⟩ := List.mem_map.1 hq
+    obtain ⟨ts, hts, e⟩ := mt_mem_scoredK hp
+    show AllToks C19.HasWord p.1
+    rw [← e]
+    exact hw r hr ts hts
   all_goals (simp only [printText]; exact hrec _)
 
 /-! ### the whole program -/
@@ -366,6 +530,9 @@ theorem mt_main_total : MainTotalStatement' := by
     exact mt_results_render en seen table categories roots [] o.cfg (some o.maxLength) x r hnd (hlex x hx)
       (mt_doc_hasWord hd _ (mt_zipSents_tokens doc scores x hx)) hxr
   apply mt_printText_total
+  · intro r hr'
+    obtain ⟨x, -, hxr⟩ := mt_mapExcept_mem _ _ _ hres r hr'
+    exact mt_sentenceL_nonempty hxr
   · exact fun r hr' ts hts => (hall r hr' ts hts).1
   · intro hf r hr' ts hts
     rw [hf] at hfit
